@@ -99,3 +99,18 @@ Proof. intros ->. unfold start_wallclock, coords_single, instant. simpl. lia. Qe
 Lemma wallclock_arithmetic_refuted : exists wall dt off off_at_start,
   start_wallclock wall dt off_at_start <> t_start (coords_single (instant wall off) dt).
 Proof. exists 10800, 30, 7200, 3600. vm_compute. discriminate. Qed.
+
+(* C12: the coordinates depend on the recorded instant only: the same instant written in another zone (wall clock and
+   offset both moved by h) gives the same three coordinates; a different host zone does not enter at all *)
+Lemma same_instant_any_zone wall off h dt dtfw dtbw :
+  coords_single (instant (wall + h) (off + h)) dt = coords_single (instant wall off) dt /\
+  coords_double (instant (wall + h) (off + h)) dtfw dtbw = coords_double (instant wall off) dtfw dtbw.
+Proof. unfold instant. replace (wall + h - (off + h))%Z with (wall - off)%Z by lia. split; reflexivity. Qed.
+(* consecutive measurements tile the time axis: when the next stamp is one acquisition later, its interval starts where the
+   previous one ended, and the time coordinates are strictly increasing with the stamps *)
+Lemma consecutive_tile stamp dt dtfw dtbw : (0 < dt -> 0 < dtfw + dtbw ->
+  t_start (coords_single (stamp + dt) dt) = t_end (coords_single stamp dt) /\
+  t_time (coords_single stamp dt) < t_time (coords_single (stamp + dt) dt) /\
+  t_start (coords_double (stamp + dtfw + dtbw) dtfw dtbw) = t_end (coords_double stamp dtfw dtbw) /\
+  t_time (coords_double stamp dtfw dtbw) < t_time (coords_double (stamp + dtfw + dtbw) dtfw dtbw))%Z.
+Proof. intros H1 H2. unfold coords_single, coords_double. simpl. repeat split; lia. Qed.
